@@ -299,6 +299,7 @@ func cmdCheck(args []string) int {
 	var samplesByDir = map[string][]sym.Sample{}
 	harnessDir := map[string]string{}
 	perHarness := []map[string]interface{}{}
+	pendingViolation := false
 	deadline := time.Time{}
 	if lim := os.Getenv("GOSYM_TIME_LIMIT_S"); lim != "" {
 		if n, err := strconv.Atoi(lim); err == nil {
@@ -319,7 +320,21 @@ func cmdCheck(args []string) int {
 			}
 		}
 		spec := sym.HarnessSpec{Pkg: modPath + "/" + h.Dir, Func: h.Func, Opts: opts}
-		res := sym.RunHarness(prog, spec, *workers, 24, deadline)
+		hdl := deadline
+		if pendingViolation {
+			// an earlier harness already has an unattributed violation: the
+			// remaining harnesses only get a short budget each
+			if d := time.Now().Add(sym.ViolationGrace); hdl.IsZero() || d.Before(hdl) {
+				hdl = d
+			}
+		}
+		res := sym.RunHarness(prog, spec, *workers, 24, hdl)
+		if !res.FirstViolation.IsZero() {
+			pendingViolation = true
+		}
+		if res.StoppedEarly {
+			fmt.Printf("harness %s: exploration stopped %s after the first violation\n", h.Func, sym.ViolationGrace)
+		}
 		results = append(results, res)
 		harnessDir[h.Func] = h.Dir
 		totalPaths += res.Paths
